@@ -60,7 +60,8 @@ pub fn gen_case(seed: u64, hist: u64, p: &GenParams, plan: &str) -> HistCase {
     let cfg = genr::gen_config(&mut r, p);
     let mut g = Gen::new(r.next(), hist, p.clone());
     let mut steps = g.history();
-    if plan == "C16" {
+    if plan == "C16" || (plan == "C06" && !p.small_cache && r.chance(1, 3)) {
+        // (C06: calls with arguments at the integer limits that the specification refuses must be refused)
         let n = g.r.range(6, 16) as usize;
         g.adversarial_burst(n, &mut steps);
     }
@@ -472,6 +473,15 @@ impl<'a> Runner<'a> {
                         Ok(()) => out.is_ok(),
                         Err((_, at)) => *at > 0 && out.is_err(),
                     };
+                    if res.is_err() && out.is_ok() && !matches!(op, Op::UpdateState(_)) {
+                        // the specification refuses this call (an argument at the integer limits included) and the
+                        // store accepted it: that is C06's subject whatever check is running
+                        let why = match &res {
+                            Err((rj, _)) => format!("{:?}", rj),
+                            _ => String::new(),
+                        };
+                        return Err(self.v("C06", "rejected_call_returned_ok:limit_argument", format!("specification rejects {} ({}), store returned Ok; state before: {:?}", op.brief(), why, self.m.st)));
+                    }
                     if res.is_ok() != out.is_ok() {
                         // specification and store disagree on an argument at the limits: not C16's
                         // subject; stop here so that later calls are not aimed at a wrong state
@@ -664,7 +674,10 @@ pub fn run_case(case: &HistCase, check_each: bool, final_restart: bool) -> (RunS
                     break;
                 }
             }
-            if res.is_none() && final_restart && !r.stop {
+            // (after a burst of adversarial calls the state need not be one a Raft-legal history can produce - e.g. a purge
+            // with a higher term and a lower index than live entries - and restart equivalence is not claimed for it)
+            let had_burst = case.steps.iter().any(|s| matches!(s.expect, Expect::Any));
+            if res.is_none() && final_restart && !r.stop && !had_burst {
                 // flush + restart at the end: the store must open and show the same state
                 r.step_ix = case.steps.len();
                 let plan_label: &str = if case.plan == "C02" { "C02" } else { "C06" };
